@@ -283,6 +283,57 @@ pub fn run(ctx: &Ctx) -> Report {
             muts.push(M { what: "statement command for unknown id / short header".into(), case: conv_with(p, 0, false) });
         }
     }
+    // structured and random parameter blocks for statements whose parameter count sits on either
+    // side of a NULL-bitmap byte boundary
+    for np in [1usize, 7, 8, 9, 16, 17] {
+        let bm = (np + 7) / 8;
+        let hdr = vec![wire::COM_STMT_EXECUTE, 1, 0, 0, 0, 0, 1, 0, 0, 0];
+        let mut blocks: Vec<(String, Vec<u8>)> = Vec::new();
+        // well-formed: all TINY values
+        let mut ok = vec![0u8; bm];
+        ok.push(1);
+        for _ in 0..np {
+            ok.extend_from_slice(&[wire::T_TINY, 0]);
+        }
+        ok.extend(std::iter::repeat(7u8).take(np));
+        blocks.push(("well-formed".into(), ok.clone()));
+        // bitmap one byte short / long
+        blocks.push(("bitmap one byte short".into(), ok[1..].to_vec()));
+        let mut l = vec![0xFFu8];
+        l.extend_from_slice(&ok);
+        blocks.push(("bitmap one byte long".into(), l));
+        // all-ones bitmap followed by a type table that is valid only under a shifted layout
+        let mut sh = vec![0xFFu8; bm];
+        sh.push(1);
+        for k in 0..np {
+            sh.extend_from_slice(&[if k == 1 { 0x50 } else { wire::T_TINY }, 1]);
+        }
+        blocks.push(("all-NULL bitmap, unknown type code in slot 1".into(), sh.clone()));
+        let mut sh2 = vec![0xFFu8; bm];
+        sh2.extend_from_slice(&[1, 1, 1, 0x50, 1]);
+        for _ in 0..np {
+            sh2.extend_from_slice(&[wire::T_TINY, 1]);
+        }
+        blocks.push(("flag and types shifted by one byte".into(), sh2));
+        // types present, values missing / one short
+        let mut t = vec![0u8; bm];
+        t.push(1);
+        for _ in 0..np {
+            t.extend_from_slice(&[wire::T_LONG, 0]);
+        }
+        blocks.push(("types without values".into(), t.clone()));
+        t.extend(std::iter::repeat(9u8).take(4 * np - 1));
+        blocks.push(("last value one byte short".into(), t));
+        for (bname, b) in blocks {
+            let mut p = hdr.clone();
+            p.extend(b);
+            let mut c = Case::new(vec![Cmd::prepare(b"np")], vec![Script::PrepOk { id: 1, params: param_cols(np), cols: vec![] }]);
+            let mut tail = wire::raw_packet(&p, 0);
+            tail.extend(wire::raw_packet(&[wire::COM_PING], 0));
+            c.raw_tail = tail;
+            muts.push(M { what: format!("execute block for {} parameters: {}", np, bname), case: c });
+        }
+    }
     // zero-length packets in various places
     for n in 1..4 {
         let mut c = Case::new(vec![Cmd::ping()], vec![]);
@@ -434,8 +485,10 @@ pub fn run(ctx: &Ctx) -> Report {
                 what = "random bytes after handshake";
             }
             2 => {
-                // valid handshake + prepare, then well-framed packets with random payloads
+                // valid handshake + prepare (random parameter count), then well-framed packets with random payloads
                 case.cmds.push(Cmd::prepare(b"p"));
+                let np = *rng.pick(&[0usize, 1, 2, 2, 7, 8, 9, 16]);
+                case.scripts[0] = Script::PrepOk { id: 1, params: param_cols(np), cols: vec![] };
                 let mut t = Vec::new();
                 for _ in 0..rng.range(1, 6) {
                     let n = rng.range(0, 40) as usize;
